@@ -17,6 +17,7 @@ import YataProofs.Indicators.More
 import YataProofs.Numeric.LinVol
 import YataProofs.Indicators.Keltner
 import YataProofs.Indicators.CMFRange
+import YataProofs.Indicators.MFIRange
 import YataProofs.Numeric.TSIRange
 import YataProofs.Numeric.MeanAbsDev
 namespace Yata.C12
@@ -98,6 +99,15 @@ theorem C12_cmf_range {P : Nat} {hist : List (Candle ℚ)} {s : CMF} (k : Candle
       den = ((lastN s.size (hist ++ [k])).map fun c => c.volume).sum ∧
       |num| ≤ den ∧ (den ≠ 0 → -1 ≤ num / den ∧ num / den ≤ 1) := CMF.vals_spec k h hk
 
+/-- Money-flow index over whole streams: from the constructor, for every stream of candles with non-negative volume, no
+    step panics and the value is in [0, 1] at every step (the flows are sums of non-negative per-candle flows over the
+    last `period` candles, which is the invariant) -/
+theorem C12_mfi_reachable {P period : Nat} (zone : ℚ) (c0 : Candle ℚ) (s0 : MFI) (h0 : MFI.init P period zone c0 = .ok s0)
+    (cs : List (Candle ℚ)) (hv : ∀ c ∈ cs, 0 ≤ c.volume) :
+    ∃ outs s', runM MFI.vals s0 cs = .ok (outs, s') ∧ outs.length = cs.length ∧
+      ∀ o ∈ outs, ∃ v, o = [.exact (1 - zone), v, .exact zone] ∧ 0 ≤ v.value ∧ v.value ≤ 1 :=
+  MFI.run_range zone c0 s0 h0 cs hv
+
 theorem C12_tr_nonneg (c : Candle ℚ) (p : ℚ) (h : c.low ≤ c.high) : 0 ≤ c.trClose p := tr_nonneg c p h
 
 theorem C12_clv_range (c : Candle ℚ) (h1 : c.low ≤ c.close) (h2 : c.close ≤ c.high) : -1 ≤ c.clv ∧ c.clv ≤ 1 :=
@@ -128,3 +138,4 @@ end Yata.C12
 #print axioms Yata.C12.C12_mean_abs_dev_nonneg
 #print axioms Yata.C12.C12_tsi_range
 #print axioms Yata.C12.C12_cmf_range
+#print axioms Yata.C12.C12_mfi_reachable
